@@ -92,6 +92,10 @@ def build(pp, family, args):
     """Rebuild a grid from a JSON-able description (topology only; nodes may be overwritten afterwards)."""
     if family == "cart":
         n = np.array(args["n"])
+        if args.get("scalar_nx"):
+            n = int(args["n"][0])
+        if args.get("box") is not None:
+            return pp.CartGrid(n, dict(args["box"]))  # physdims as a bounding-box dictionary (domain not at the origin)
         phys = args.get("phys")
         return pp.CartGrid(n, None if phys is None else np.array(phys, dtype=float))
     if family == "tensor":
@@ -463,6 +467,11 @@ def _base_grids(pp, rng, quick):
             continue
         out.append(("tet", {"p": pts.tolist(), "tet": tet.tolist()}, 3, 1.0, "simplex"))
     # ---- length scales far from 1 (cells of size 1e-5 .. 1e4): every clause of the statement is scale-free
+    # Cartesian grids given by a bounding box that does not start at the origin (1-d with array and scalar nx, 2-d, 3-d)
+    out.append(("cart", {"n": [4], "box": {"xmin": 1.0, "xmax": 3.0}}, 1, 2.0, "quad"))
+    out.append(("cart", {"n": [3], "scalar_nx": True, "box": {"xmin": -1.0, "xmax": 0.5}}, 1, 1.5, "quad"))
+    out.append(("cart", {"n": [2, 3], "box": {"xmin": 1.0, "xmax": 3.0, "ymin": -1.0, "ymax": 0.5}}, 2, 3.0, "quad"))
+    out.append(("cart", {"n": [2, 1, 2], "box": {"xmin": 1.0, "xmax": 2.0, "ymin": 0.5, "ymax": 1.0, "zmin": -2.0, "zmax": 0.0}}, 3, 1.0, "quad"))
     out.append(("cart", {"n": [20], "phys": [0.01]}, 1, 0.01, "quad"))
     out.append(("cart", {"n": [3], "phys": [3e-5]}, 1, 3e-5, "quad"))
     out.append(("cart", {"n": [2], "phys": [2e4]}, 1, 2e4, "quad"))
